@@ -46,7 +46,7 @@ def _scenario(bits, acl_pos, d_up, bw, perm):
     if bits["files"]:
         s1["folders"] = s1["folders"] + [{"folder_name": "extra", "files": [{"file_name": "x.dat"}, {"file_name": "y.dat"}]}]
     if bits["route"]:
-        r1["routes"] = [{"address": "10.5.0.0", "subnet_mask": "255.255.0.0", "next_hop_ip_address": "192.168.2.10", "metric": 2}]
+        r1["routes"] = [{"address": "10.5.0.0", "subnet_mask": "255.255.0.0", "next_hop_ip_address": "192.168.2.10", "metric": 2.5}]
     if bits["droute"]:
         r1["default_route"] = {"next_hop_ip_address": "192.168.2.10"}
     if bits["acl"]:
